@@ -7,7 +7,7 @@ package locked
 // specification by porcupine (linearizability), and panics are captured.
 //
 //	c06-locked-stress <seed> <object> <goroutines> <opsPerGoroutine> <rounds>
-//	object: cpq | clist-array | clist-linked | cow | syncmap
+//	object: cpq | clist-array | clist-linked | cow | syncmap | syncmap-any | syncmap-error
 //
 // prints "ok <rounds> rounds <ops> ops" or one line describing the first failing round
 // followed by its history.
@@ -323,6 +323,16 @@ func stressMain(args []string) {
 			m := &syncx.Map[int, int]{}
 			do = func(c call) string { return mapCall(m, c.op, c.args) }
 			gen = genMapOp
+			model = mkModel(kvState{}, mapSpec, true)
+		case "syncmap-any":
+			m, tb := &syncx.Map[int, any]{}, anyTable()
+			do = func(c call) string { o, _ := mapCallIdx(m, tb, c.op, c.args); return o }
+			gen = func(r *rand.Rand) call { return genMapOpIdx(r, len(tb)) }
+			model = mkModel(kvState{}, mapSpec, true)
+		case "syncmap-error":
+			m, tb := &syncx.Map[int, error]{}, errorTable()
+			do = func(c call) string { o, _ := mapCallIdx(m, tb, c.op, c.args); return o }
+			gen = func(r *rand.Rand) call { return genMapOpIdx(r, len(tb)) }
 			model = mkModel(kvState{}, mapSpec, true)
 		default:
 			fmt.Println("unknown object", obj)
